@@ -145,7 +145,7 @@ Definition covered (H : nat) (sv : scanv) (r j : nat) : Prop :=
 Definition retire_once (tr : trace) : Prop := forall p, (cnt "retire" p tr <= 1)%Z.
 
 Definition resp_names : list string :=
-  ["attached"; "outoffuel"; "skip"; "detached"; "protected"; "assigned"; "cleared"; "unlinked"; "retired";
+  ["attached"; "skip"; "detached"; "protected"; "assigned"; "cleared"; "unlinked"; "retired";
    "scanned"; "touch"; "copied"].
 Definition is_resp (e : ev) : bool :=
   match e with
